@@ -7,7 +7,9 @@ property statement promises tight bounds.
 inductive, for two reasons that are both visible in the code:
 
 * a "constant infinity" (`modulus = "infinity"`, `modular_value = "infinity"`) passes the
-  asserts and then crashes `+ - * ?:` (finding F8) — excluded by `FiniteConst`;
+  asserts and would crash `+ - * ?:` (it was produced by `$upper_bound` of an unbounded
+  argument until the fix of finding F8; no transfer function produces it any more) —
+  excluded by `FiniteConst`;
 * for an annotation with no finite bound the asserts never look at `modular_value`, so
   `-infinity .. infinity, modulus 3, modular_value "infinity"` passes — excluded by
   `CanonMv` (`0 ≤ modular_value < modulus`, which is what every transfer function
@@ -52,30 +54,11 @@ def GivenOk : Expr → Bool
   | .lower e => GivenOk e
   | .cref e => GivenOk e
   | .vref e => GivenOk e
+  | .present _ c => GivenOk c
   | _ => true
 def GivenOkList : List Expr → Bool
   | [] => true
   | e :: es => GivenOk e && GivenOkList es
-end
-
-mutual
-/-- **the hypothesis that excludes the crash root F8**: no `$upper_bound(x)` whose argument
-    has an infinite inferred maximum, no `$lower_bound(x)` whose argument has an infinite
-    inferred minimum, anywhere in the expression.  Decidable: it only runs `abs`. -/
-def FiniteBounds : Expr → Bool
-  | .bin _ l r => FiniteBounds l && FiniteBounds r
-  | .choice c t f => FiniteBounds c && FiniteBounds t && FiniteBounds f
-  | .max args => FiniteBoundsList args
-  | .upper e => FiniteBounds e &&
-      (match abs e with | some (.int a) => !a.max.isInf | _ => true)
-  | .lower e => FiniteBounds e &&
-      (match abs e with | some (.int a) => !a.min.isInf | _ => true)
-  | .cref e => FiniteBounds e
-  | .vref e => FiniteBounds e
-  | _ => true
-def FiniteBoundsList : List Expr → Bool
-  | [] => true
-  | e :: es => FiniteBounds e && FiniteBoundsList es
 end
 
 /-! ### The linear single-occurrence fragment (tightness) -/
@@ -93,6 +76,7 @@ def ivars : Expr → List Nat
   | .lower e => ivars e
   | .cref e => ivars e
   | .vref e => ivars e
+  | .present _ c => ivars c
   | _ => []
 def ivarsList : List Expr → List Nat
   | [] => []
